@@ -266,7 +266,8 @@ P("C17",
              "and are reported with the journaled case); (b) the read cache under get / clear / expiry histories with value sizes around the capacity: size within [0, max], "
              "values equal to what the loader produced for that key, clear empties it, close with expiries in flight does not crash.",
   level_note="Trusted: the counting model. Which queued request is granted next is the manager's free (random) choice and is not asserted. Session-level limits (connections, "
-             "request queues, rate limits, web-seed caps) are decided by the session unit when listed.",
+             "request queues, upload rate limit, web-seed caps, piece memory) are decided by c17.session from outside the client (Stats counters sampled every 1-2 ms and the "
+             "scripted peers' own view); the download rate limit is not measured (what the client has read from a socket is not observable from outside).",
   technique="property-based testing (rapid): model-based stateful testing of the managers",
   rule="(a) 1..40 ops, limit 1..16, request sizes incl. 0, limit, limit+1, negative; non-trivial = a request was queued and later notified or cancelled. "
        "(b) 1..40 ops, capacity 0..1000, TTL 1 ms or 1 min; non-trivial = a cache hit, an expiry window or a clear occurred",
@@ -274,6 +275,14 @@ P("C17",
   units=[
    U("c17.resourcemanager", "c17", "TestResourceManager", "resource manager vs counting model", Q(20000, 4), T(2000000), min_nontrivial_frac=0.2, env={"VERIF_JOURNAL": "1"}),
    U("c17.piececache", "c17", "TestPieceCache", "read cache: bounded size, loader values, clear/expiry", Q(2400, 8), T(200000), min_nontrivial_frac=0.3, env={"VERIF_JOURNAL": "1"}),
+   U("c17.session", "c17", "TestSessionLimits",
+     "one scenario per case against a real session with generated limit values from 1: queue (MaxRequestsIn 1-8, slow disk, burst of limit+0..2*limit+1 requests in one write, "
+     "fast extension on/off: every request answered once, >= min(burst, limit) served, and after the queue drained exactly `limit` fresh requests are all served); ram "
+     "(WriteCacheSize of 1-2 pieces, 2-4 seeders, slow writes, ended by completion / stop / remove / stop+start: Session.Stats().WriteCacheSize never above the limit and back to 0 "
+     "objects / 0 bytes / 0 pending when quiet); accept (MaxPeerAccept 1-4 with good / wrong-hash / garbage / silent / half-handshake connections: incoming established+handshaking "
+     "never above the limit, every failed or timed-out handshake closed by the client); dial (MaxPeerDial 1-4, MaxPeerAddresses 1-6 with listeners that never answer); rate "
+     "(SpeedLimitUpload 32-100 KiB/s: bytes received in 1.3 s <= limit x (elapsed + 1 s) + one message); webseed (1-6 sources, WebseedMaxSources 1-4, WebseedMaxDownloads 1-3)",
+     Q(192, 16, 1200), T(4800, 16), shrinktime="30s"),
   ])
 
 SESSION_TRUST = ("harness/speer + refwire + refmse (scripted peers), harness/strk (trackers, web seed), harness/sstore (recording storage), harness/model (ground truth F); "
